@@ -26,6 +26,7 @@ type scriptReader struct {
 	pos      int
 	faultAt  int // byte offset at which the reader fails (-1: never)
 	withData bool
+	eofData  bool // the last fragment is returned together with io.EOF
 }
 
 func (r *scriptReader) Read(p []byte) (int, error) {
@@ -50,6 +51,9 @@ func (r *scriptReader) Read(p []byte) (int, error) {
 	}
 	n := copy(p, r.data[r.pos:end])
 	r.pos += n
+	if r.eofData && r.pos >= len(r.data) && r.faultAt < 0 {
+		return n, io.EOF
+	}
 	if r.faultAt >= 0 && r.pos >= r.faultAt && r.withData {
 		return n, errSentinel
 	}
@@ -65,11 +69,12 @@ type c09Env struct {
 	Gomax    int   `json:"gomax"`
 	ResCap   int   `json:"res_cap"`
 	TmpSize  int   `json:"tmp_size"`
+	EOFData  bool  `json:"eof_with_data,omitempty"`
 	Choices  []int `json:"choices,omitempty"`
 }
 
 func (e c09Env) String() string {
-	return fmt.Sprintf("stream#%d cuts=%v fault@%d(data=%v) recycle=%b GOMAXPROCS=%d cap(res)=%d tmpSize=%d", e.Stream, e.Cuts, e.FaultAt, e.WithData, e.Recycle, e.Gomax, e.ResCap, e.TmpSize)
+	return fmt.Sprintf("stream#%d cuts=%v fault@%d(data=%v) lastReadWithEOF=%v recycle=%b GOMAXPROCS=%d cap(res)=%d tmpSize=%d", e.Stream, e.Cuts, e.FaultAt, e.WithData, e.EOFData, e.Recycle, e.Gomax, e.ResCap, e.TmpSize)
 }
 
 var c09Streams = []string{
@@ -81,6 +86,7 @@ var c09Streams = []string{
 	"[1]\n[2]\n[3]\n[4]\n",
 	"",
 	" \n",
+	"[1]\n[2]\n[3]\n[4]\n[5]\n[6]\n",
 }
 
 type c09Obs struct {
@@ -98,7 +104,7 @@ func c09Exec(ch vsched.Chooser, env c09Env, stream []byte) c09Obs {
 	var o c09Obs
 	o.res = vsched.Run(ch, vsched.Options{MaxSteps: 100000, GOMAXPROCS: env.Gomax, Log: os.Getenv("VERIF_DEBUG") != "", Digest: c09Digest, LocalOpt: true}, func() {
 		simdjson.VerifTmpSize = env.TmpSize
-		rd := &scriptReader{data: stream, cuts: env.Cuts, faultAt: env.FaultAt, withData: env.WithData}
+		rd := &scriptReader{data: stream, cuts: env.Cuts, faultAt: env.FaultAt, withData: env.WithData, eofData: env.EOFData}
 		res := vsched.MakeChan(make(chan simdjson.Stream, env.ResCap))
 		reuse := vsched.MakeChan(make(chan *simdjson.ParsedJson, 2))
 		simdjson.ParseNDStream(rd, res, reuse)
@@ -216,8 +222,104 @@ func subsetsUpTo(n, k int, fn func(cuts []int)) {
 	rec(1)
 }
 
+type randChooser struct{ x uint64 }
+
+func (r *randChooser) Choose(n int, preempt bool, kind string) int {
+	r.x = r.x*6364136223846793005 + 1442695040888963407
+	return int((r.x >> 33) % uint64(n))
+}
+
 func c09Body(w *W) {
 	vsched.DebugEnabled = os.Getenv("VERIF_DEBUG") != ""
+	if n := envInt("VERIF_C09_RANDOM", 0); n > 0 {
+		// development aid: random schedules of the six-chunk scenario (not a deciding step)
+		stream := []byte(c09Streams[8])
+		docs, _ := ref.ParseND(stream)
+		var want []string
+		for _, d := range docs {
+			want = append(want, d.Render())
+		}
+		env := c09Env{Stream: 8, Cuts: []int{4, 8, 12, 16, 20}, FaultAt: -1, Recycle: 0xff, Gomax: 3, ResCap: 0, TmpSize: 64}
+		bad := 0
+		for i := int64(0); i < n; i++ {
+			w.cur.Set("dbg", "", nil)
+			obs := c09Exec(&randChooser{x: uint64(i)*77 + uint64(w.Shard)}, env, stream)
+			w.res.Evaluations++
+			if what, _ := c09Judge(obs, env, want); what != "" {
+				bad++
+				if bad == 1 {
+					w.Note("random schedule finds: " + what)
+				}
+			}
+		}
+		// compare the set of observations with what the pruned DFS reaches
+		randObs := map[string]bool{}
+		for i := int64(0); i < n; i++ {
+			w.cur.Set("dbg", "", nil)
+			obs := c09Exec(&randChooser{x: uint64(i)*131 + 7}, env, stream)
+			randObs[fmt.Sprint(obs.docs, obs.errs)] = true
+		}
+		dfsObs := map[string]bool{}
+		var obs c09Obs
+		e := &vexp.Explorer{Bound: -1, N: 1, StateKey: func() uint64 { return vsched.CurrentKey(nil) }}
+		e.Exec = func(ch vsched.Chooser) bool {
+			w.cur.Set("dbg", "", nil)
+			obs = c09Exec(ch, env, stream)
+			return obs.res.Pruned != ""
+		}
+		e.Check = func(choices []int, trace []vexp.Point) { dfsObs[fmt.Sprint(obs.docs, obs.errs)] = true }
+		if envInt("VERIF_C09_RANDOM_DFS", 0) == 1 {
+			e.Debug = true
+			e.Explore()
+			// find a bad schedule by deviation-bounded search, then walk it against the visited set
+			var badChoices []int
+			e4 := &vexp.Explorer{Bound: 3, N: 1, AllCostly: true, Stop: func() bool { return badChoices != nil }}
+			e4.Exec = func(ch vsched.Chooser) bool {
+				w.cur.Set("dbg", "", nil)
+				obs = c09Exec(ch, env, stream)
+				return false
+			}
+			e4.Check = func(choices []int, trace []vexp.Point) {
+				if what, _ := c09Judge(obs, env, want); what != "" && badChoices == nil {
+					badChoices = append([]int(nil), choices...)
+				}
+			}
+			e4.Explore()
+			w.Note(fmt.Sprintf("bad schedule: %v", compressChoices(badChoices)))
+			pc := &probeChooser{p: badChoices, e: e}
+			c09Exec(pc, env, stream)
+			w.Note(fmt.Sprintf("bad schedule: first point whose state key the pruned search never saw: %d of %d", pc.firstUnseen, len(badChoices)))
+			if pc.firstUnseen > 0 {
+				w.Note("state on the bad path at the last seen point:\n" + pc.lastSeenDesc)
+				// the state the search reached under the same key
+				pc2 := &probeChooser{p: e.FirstReach[pc.lastSeenKey], e: e, stopAt: len(e.FirstReach[pc.lastSeenKey])}
+				c09Exec(pc2, env, stream)
+				w.Note("state the search expanded under the same key:\n" + pc2.descAtStop)
+			}
+		}
+		for b := 1; b <= 3; b++ {
+			devObs := map[string]bool{}
+			e3 := &vexp.Explorer{Bound: b, N: 1, AllCostly: true}
+			e3.Exec = func(ch vsched.Chooser) bool {
+				w.cur.Set("dbg", "", nil)
+				obs = c09Exec(ch, env, stream)
+				return false
+			}
+			e3.Check = func(choices []int, trace []vexp.Point) { devObs[fmt.Sprint(obs.docs, obs.errs)] = true }
+			e3.Explore()
+			w.Note(fmt.Sprintf("deviation bound %d: %d executions, %d distinct observations", b, e3.Stats.Executions, len(devObs)))
+		}
+		for k := range randObs {
+			if !dfsObs[k] {
+				w.Note("observation reached by a random schedule but not by the pruned search: " + k)
+			}
+		}
+		w.Note(fmt.Sprintf("random distinct observations %d, pruned DFS distinct observations %d, states %d", len(randObs), len(dfsObs), e.Stats.States))
+		w.Count("random_bad", int64(bad))
+		w.res.States, w.res.Transitions = 1, 1
+		w.Sample("random")
+		return
+	}
 	pb := 1
 	if w.Thorough() {
 		pb = 2
@@ -281,6 +383,17 @@ func c09Body(w *W) {
 		if quick && si == 5 {
 			continue // four documents: thorough tier only
 		}
+		if si == 8 {
+			// six one-line chunks, every value recycled: a chunk buffer handed back to the pool
+			// twice (or too early) is taken by the reader while a parser still owns it
+			if w.Mine() {
+				run(job{c09Env{Stream: si, Cuts: []int{4, 8, 12, 16, 20}, FaultAt: -1, Recycle: 0xff, Gomax: 3, ResCap: 0, TmpSize: 64}, pb}, stream, want)
+			}
+			if w.Mine() {
+				run(job{c09Env{Stream: si, Cuts: []int{4, 8, 12, 16, 20}, FaultAt: -1, Recycle: 0xff, Gomax: 1, ResCap: 2, TmpSize: 64}, pb}, stream, want)
+			}
+			continue
+		}
 		type cfg struct{ gomax, rc, recycle int }
 		cfgs := []cfg{{3, 0, 0xff}, {3, 0, 0}, {1, 0, 0xff}, {3, 2, 0xff}}
 		if !quick {
@@ -297,6 +410,13 @@ func c09Body(w *W) {
 				}
 				run(job{c09Env{Stream: si, Cuts: cuts, FaultAt: -1, Recycle: c.recycle, Gomax: c.gomax, ResCap: c.rc, TmpSize: 64}, pb}, stream, want)
 			}
+		})
+		// the reader returns its last bytes together with io.EOF (allowed by io.Reader)
+		subsetsUpTo(n, 1, func(cuts []int) {
+			if !w.Mine() {
+				return
+			}
+			run(job{c09Env{Stream: si, Cuts: cuts, FaultAt: -1, Recycle: 0xff, Gomax: 3, ResCap: 0, TmpSize: 64, EOFData: true}, pb}, stream, want)
 		})
 		// mixed recycle masks
 		subsetsUpTo(n, map[bool]int{true: 0, false: 1}[quick], func(cuts []int) {
@@ -390,4 +510,42 @@ func c09Digest(v any) uint64 {
 		return uint64(x) + 11
 	}
 	return 0
+}
+
+// probeChooser replays a schedule and checks every state key against a finished search.
+type probeChooser struct {
+	p            []int
+	i            int
+	e            *vexp.Explorer
+	firstUnseen  int
+	done         bool
+	lastSeenKey  uint64
+	lastSeenDesc string
+	stopAt       int
+	descAtStop   string
+}
+
+func (c *probeChooser) Choose(n int, preempt bool, kind string) int {
+	k := vsched.CurrentKey(nil)
+	if c.stopAt > 0 && c.i == c.stopAt {
+		c.descAtStop = vsched.DescribeState()
+	}
+	if !c.done && c.stopAt == 0 {
+		if c.e.Visited(k) {
+			c.lastSeenKey = k
+			c.lastSeenDesc = vsched.DescribeState()
+		} else {
+			c.firstUnseen = c.i
+			c.done = true
+		}
+	}
+	v := 0
+	if c.i < len(c.p) {
+		v = c.p[c.i]
+	}
+	c.i++
+	if v >= n {
+		v = 0
+	}
+	return v
 }
